@@ -497,7 +497,7 @@ mod verif_pdu_layout {
 
     // ---------------- router keys and ASPA through Payload::new / to_payload (static Bytes) ----------------
     fn action_of(announce: bool) -> Action { if announce { Action::Announce } else { Action::Withdraw } }
-    //@harness pdu_payload_router_key_roundtrip K fn=Payload::new_if_supported,Payload::new,Payload::to_payload timeout=900
+    //@harness pdu_payload_router_key_roundtrip K fn=Payload::new_if_supported,Payload::new,Payload::to_payload timeout=2400 thorough
     verif_harness!{ pdu_payload_router_key_roundtrip; |version: u8, announce: bool, ki: [u8; 20], asn: u32| {
         let action = action_of(announce);
         let item = payload::RouterKey::new(crate::crypto::keys::KeyIdentifier::from(ki), Asn::from_u32(asn), RouterKeyInfo(Bytes::from_static(&KEY4)));
@@ -549,11 +549,11 @@ mod verif_pdu_layout {
         }
         mem::forget(item);
     }
-    //@harness pdu_payload_aspa_announce_roundtrip K fn=Payload::new_if_supported,Payload::new,Payload::to_payload timeout=900
+    //@harness pdu_payload_aspa_announce_roundtrip K fn=Payload::new_if_supported,Payload::new,Payload::to_payload timeout=2400 thorough
     verif_harness!{ pdu_payload_aspa_announce_roundtrip; |version: u8, customer: u32, two: bool| {
         if two { aspa_roundtrip(version, Action::Announce, customer, &PROV8[..]) } else { aspa_roundtrip(version, Action::Announce, customer, &PROV8[..0]) }
     }}
-    //@harness pdu_payload_aspa_withdraw_empty_roundtrip K fn=Payload::new_if_supported,Payload::new,Payload::to_payload timeout=900
+    //@harness pdu_payload_aspa_withdraw_empty_roundtrip K fn=Payload::new_if_supported,Payload::new,Payload::to_payload timeout=2400 thorough
     verif_harness!{ pdu_payload_aspa_withdraw_empty_roundtrip; |version: u8, customer: u32| {
         aspa_roundtrip(version, Action::Withdraw, customer, &PROV8[..0]);
     }}
@@ -561,7 +561,7 @@ mod verif_pdu_layout {
     // FINDING: with action Withdraw and a non-empty provider list, to_payload returns the customer with an
     // EMPTY provider list (pdu.rs, make_payload, `Action::Withdraw => ProviderAsns::empty()`), although
     // Payload::new wrote all providers.  This harness states the property as given and fails on "same providers".
-    //@harness pdu_payload_aspa_withdraw_roundtrip K fn=Payload::new_if_supported,Payload::new,Payload::to_payload timeout=900
+    //@harness pdu_payload_aspa_withdraw_roundtrip K fn=Payload::new_if_supported,Payload::new,Payload::to_payload timeout=2400 thorough
     verif_harness!{ pdu_payload_aspa_withdraw_roundtrip; |version: u8, customer: u32| {
         aspa_roundtrip(version, Action::Withdraw, customer, &PROV8[..]);
     }}
